@@ -7,6 +7,30 @@
 From OIDC Require Import Lib.
 From OIDC Require Export C08_OP.
 
+(* Ground truth about key trust, from the configuration as WRITTEN: the extra key is good for
+   access tokens exactly when the LAST WithAccessTokenKeySet option designates a key set that trusts
+   it (no such option: the storage's keys only), and likewise - independently - for id_token_hints.
+   No option about one kind of token says anything about the other kind. *)
+Fixpoint last_at (opts : list kopt) : option bool :=
+  match opts with
+  | [] => None
+  | o :: r => match last_at r with
+              | Some b => Some b
+              | None => match o with OptATKeys b => Some b | OptHintKeys _ => None end
+              end
+  end.
+Fixpoint last_hint (opts : list kopt) : option bool :=
+  match opts with
+  | [] => None
+  | o :: r => match last_hint r with
+              | Some b => Some b
+              | None => match o with OptHintKeys b => Some b | OptATKeys _ => None end
+              end
+  end.
+Definition designated (opts : list kopt) : keyconf :=
+  KeyConf (match last_at opts with Some b => b | None => false end)
+          (match last_hint opts with Some b => b | None => false end).
+
 Definition input := hist_input.
 Definition observed := list out.
 Definition model : input -> observed := run_hist.
@@ -223,7 +247,7 @@ Fixpoint spec_run (cl : list client) (g : store) (ops : list op) (xs : list out)
   end.
 
 Definition spec (i : input) (o : observed) : bool :=
-  match i with Hist cl pol ops => spec_run cl (Store [] [] pol) (located ops) o end.
+  match i with Hist cl pol ops => spec_run cl (Store [] [] pol) (located (designated (p_kopts pol)) ops) o end.
 
 Definition obs_eqb (a b : observed) : bool := list_eqb out_eqb a b.
 
